@@ -42,7 +42,7 @@ type vpC16Tunnel struct {
 	total   int
 	ending  string
 	seed    uint64
-	keep   net.Conn // tunnel left open on purpose ("abandon")
+	keep    net.Conn // tunnel left open on purpose ("abandon")
 	// results
 	got    []byte
 	want   int
